@@ -11,7 +11,7 @@ T4 == Addr("198.51.100.9", <<198, 51, 100, 9>>)
 DocX(id, label, runs, rtts, enrich, skip, dns, names, real, bound, reprobe, hit) ==
     [id |-> id, label |-> label, kind |-> "doc",
      extra |-> [doc |-> [runs |-> runs, rtts |-> rtts, enrich |-> enrich, skip_private |-> skip, dns |-> dns, names |-> names,
-                         realclock |-> real, bound_us |-> bound, reprobe |-> reprobe, hit |-> hit]]]
+                         realclock |-> real, bound_us |-> bound, reprobe |-> reprobe, hit |-> hit, rtt_div |-> 1, dport |-> 33434]]]
 Doc(id, label, runs, rtts, enrich, skip, dns, names) == DocX(id, label, runs, rtts, enrich, skip, dns, names, FALSE, 0, FALSE, <<>>)
 NoDNS == [x \in {} |-> ""]
 NoNames == [x \in {} |-> <<>>]
@@ -23,10 +23,20 @@ C16HopSeqs == UNION {[1..n -> {Hop(a, r, FALSE) : a \in C16Addrs, r \in {0, 3}}]
               {<<Hop(a, 3, FALSE), Hop(NoAddr, 0, FALSE), Hop(T4, 7, TRUE)>> : a \in C16Addrs}
 C16Rtts == UNION {[1..n -> {0, 1, 2, 7}] : n \in 0..4}
 Str(s) == ToJson(s)
+\* end-to-end samples with parts below one microsecond (samples are rtts[i] / 10000 ms): two samples, alternating samples, a sample
+\* repeated - the statistics are compared in millionths of a millisecond (Return.fine)
+C16FineRtts == {<<123456, 123450>>, <<123450, 123456>>, <<50004, 50009, 50004, 50009>>, <<70001, 70001, 70006>>, <<99995>>, <<10005, 0, 10011>>, <<33333, 33338, 33336>>}
+C16Fine == { [Doc("C16/fine/" \o Str(rt), "rtts/sub_microsecond/" \o ToString(Len(rt)), <<RunOf(<<Hop(T4, 7, TRUE)>>)>>, rt, FALSE, FALSE, NoDNS, NoNames)
+                EXCEPT !.extra.doc.rtt_div = 10000] : rt \in C16FineRtts }
+
 C16All(u) ==
     { Doc("C16/runs/" \o Str([k \in DOMAIN rs |-> [j \in DOMAIN rs[k] |-> rs[k][j].s]]) \o Str([k \in DOMAIN rs |-> [j \in DOMAIN rs[k] |-> rs[k][j].rtt]]),
           "runs/" \o Str([k \in DOMAIN rs |-> [j \in DOMAIN rs[k] |-> rs[k][j].s]]) \o Str([k \in DOMAIN rs |-> [j \in DOMAIN rs[k] |-> rs[k][j].rtt]]), [k \in DOMAIN rs |-> RunOf(rs[k])], <<1, 0, 7, 2>>, FALSE, FALSE, NoDNS, NoNames)
         : rs \in {<<>>} \cup {<<h>> : h \in C16HopSeqs} \cup {<<h1, h2>> : h1 \in RandomSubset(12, C16HopSeqs), h2 \in RandomSubset(6, C16HopSeqs)} }
+    \cup C16Fine
+    \* ICMP: the runs have no ports - the published fields are all there, with port 0
+    \cup { [Doc("C16/icmp_port0/" \o ToString(n), "runs/icmp_port0", [k \in 1..n |-> RunOf(<<Hop(T4, 7, TRUE)>>)], <<1, 2>>, FALSE, FALSE, NoDNS, NoNames)
+                EXCEPT !.extra.doc.dport = 0] : n \in 1..2 }
     \cup { Doc("C16/rtts/" \o Str(rt), "rtts/" \o Str(rt), <<RunOf(<<Hop(T4, 7, TRUE)>>)>>, rt, FALSE, FALSE, NoDNS, NoNames) : rt \in C16Rtts }
 
 \* C17: every private block boundary and its public neighbours, mapped forms, empty hops; with/without enrichment
